@@ -44,31 +44,51 @@ fn oracle(out: &mut Out, bytes: &[u8], op: &str) -> String {
     ans
 }
 
-/// decode one fixed, unrelated frame of every format, so that whatever a (hypothetical) stateful decoder
-/// remembers is about none of the frames under test
+/// decode unrelated frames of every format — 24 DISTINCT payloads for each of the Comm-B formats (a memo of the
+/// last few MB fields must be pushed out, not merely overwritten once) — so that whatever a (hypothetical)
+/// stateful decoder remembers is about none of the frames under test
 fn flush_decoder_state() {
     for df in [0u8, 4, 5, 11, 16, 17, 18, 20, 21, 24] {
-        let mut f = vec![0x55u8; if df & 0x10 != 0 { 14 } else { 7 }];
-        f[0] = (df << 3) | 5;
-        if df == 17 || df == 18 {
-            set_parity(&mut f, 0);
+        let n = if df == 20 || df == 21 { 24 } else { 1 };
+        for i in 0..n {
+            let mut f = vec![0x55u8; if df & 0x10 != 0 { 14 } else { 7 }];
+            f[0] = (df << 3) | 5;
+            if n > 1 {
+                f[5] = 0xa0 ^ i as u8;
+                f[9] = i as u8;
+            }
+            if df == 17 || df == 18 {
+                set_parity(&mut f, 0);
+            }
+            let _ = decode_json(&f);
         }
-        let _ = decode_json(&f);
     }
 }
 
+/// the answer for `f` in a thread that has decoded nothing else (thread-local state is empty there) after the
+/// flush above (for state shared between threads)
+fn fresh_answer(f: &[u8]) -> String {
+    std::thread::scope(|s| {
+        s.spawn(|| {
+            flush_decoder_state();
+            dec_answer(&decode_json(f).0)
+        })
+        .join()
+        .unwrap_or_else(|_| "panic".to_string())
+    })
+}
+
 /// determinism across a history (oracle only, no model case): f, g, f, g must each decode as they do
-/// right after unrelated traffic.  Replay op: `hist <f hex> <g hex>`.
+/// in a fresh thread right after unrelated traffic.  Replay op: `hist <f hex> <g hex>`.
 pub fn hist_test(out: &mut Out, f: &[u8], g: &[u8]) {
+    let first = fresh_answer(f);
+    let fresh_g = fresh_answer(g);
     flush_decoder_state();
-    let first = dec_answer(&decode_json(f).0);
-    flush_decoder_state();
-    let fresh_g = dec_answer(&decode_json(g).0);
-    let _ = decode_json(f);
+    let here_f = dec_answer(&decode_json(f).0);
     let after_f = dec_answer(&decode_json(g).0);
     let again = dec_answer(&decode_json(f).0);
     out.stat("history-determinism");
-    if after_f != fresh_g || again != first {
+    if after_f != fresh_g || again != first || here_f != first {
         out.fail("nondeterministic-across-history", &format!("hist {} {}", hex(f), hex(g)),
                  "decoding one of these frames between two decodings of the other changes the result");
     }
@@ -272,6 +292,17 @@ pub fn run_with(out: &mut Out, rng: &mut Rng, thorough: bool, oracle: Oracle) {
                 };
                 put_bits(&mut f, 19, 13, ac13);
                 dec(out, &f);
+                // history: the BDS 0,5 hypothesis depends on the reply's OWN altitude field, so a decoder that
+                // remembers what it inferred for this MB field (a memo keyed on the payload alone) answers
+                // differently for the same MB under another header.  g = f with one header bit inverted
+                // (AC field, DF20 <-> DF21, flight status) and g = f with one payload bit inverted.
+                if variant % 6 <= 4 && variant < 12 {
+                    for pos in 0..f.len() {
+                        let mut g = f.clone();
+                        g[pos] ^= 1 << rng.below(8);
+                        hist_test(out, &f, &g);
+                    }
+                }
             }
         }
     }
@@ -299,7 +330,7 @@ pub fn run_with(out: &mut Out, rng: &mut Rng, thorough: bool, oracle: Oracle) {
         for _ in 0..((if df >= 20 { 25 } else { 4 }) * k) {
             let f = if df == 20 || df == 21 {
                 let mut f = frame(rng, df, None);
-                let mbs = crate::gen_commb_b::payloads(rng, false);
+                let mbs = if rng.below(3) == 0 { crate::gen_commb_a::payloads(rng, false) } else { crate::gen_commb_b::payloads(rng, false) };
                 if !mbs.is_empty() {
                     // the tail of the list holds plain valid encodings (a register is present)
                     let mb = &mbs[mbs.len() - 1 - rng.below(150.min(mbs.len() as u64)) as usize];
